@@ -101,6 +101,39 @@ def build(L, fn, p):
         return B.OriginalBroadcastNPDU(bytes(p["data"]))
 
 
+def build_late(L, fn, p):
+    """the same message, but with its parameters assigned after construction (a message object filled in step by step, or re-used)"""
+    B = L.B
+    x = build(L, fn, p)
+    if fn == 0:
+        y = B.Result()
+        y.bvlciResultCode = x.bvlciResultCode
+    elif fn in (1, 3):
+        ph = mk_ip(L, bytes([1, 2, 3, 4, 0xBA, 0xC0]))
+        ph.addrMask = 0xFFFFFFFF
+        y = (B.WriteBroadcastDistributionTable if fn == 1 else B.ReadBroadcastDistributionTableAck)([ph])
+        y.bvlciBDT = x.bvlciBDT
+    elif fn == 4:
+        y = B.ForwardedNPDU(mk_ip(L, bytes([1, 2, 3, 4, 0xBA, 0xC0])), b"\x01\x02\x03")
+        y.bvlciAddress = x.bvlciAddress
+        y.pduData = bytearray(x.pduData)
+    elif fn == 5:
+        y = B.RegisterForeignDevice()
+        y.bvlciTimeToLive = x.bvlciTimeToLive
+    elif fn == 7:
+        y = B.ReadForeignDeviceTableAck([])
+        y.bvlciFDT = x.bvlciFDT
+    elif fn == 8:
+        y = B.DeleteForeignDeviceTableEntry()
+        y.bvlciAddress = x.bvlciAddress
+    elif fn in (9, 10, 11):
+        y = type(x)(b"\x01\x02\x03")
+        y.pduData = bytearray(x.pduData)
+    else:
+        y = x
+    return y
+
+
 def params_of(L, fn, x):
     if fn == 0:
         return dict(code=x.bvlciResultCode)
@@ -133,13 +166,13 @@ def norm(p):
     return q
 
 
-def check_emit(fn, p):
+def check_emit(fn, p, late=False):
     """message object -> AnnexJCodec.indication -> octets below the codec"""
     L = lib()
-    name = R.NAMES[fn]
+    name = R.NAMES[fn] + (":filled-in-later" if late else "")
     del L.bottom.got[:]
     try:
-        x = build(L, fn, p)
+        x = build_late(L, fn, p) if late else build(L, fn, p)
         L.top.request(x)
     except L.EE as err:
         # every generated message is representable (tables <= 40 entries, payload <= 1497 octets): a refusal
@@ -261,6 +294,9 @@ def judge(case):
     if k == "emit":
         p = p_from_json(case["p"])
         fails, octets = check_emit(case["fn"], p)
+        if not fails and octets != "refused":
+            # and once more with the parameters assigned after construction
+            fails, octets = check_emit(case["fn"], p, late=True)
         labels = ["emit:" + R.NAMES[case["fn"]]]
         if octets == "refused":
             labels.append("emit:refused")
